@@ -322,10 +322,16 @@ func main() {
 							for _, rl := range roles {
 								comp = comp || rl.completer()
 							}
-							if ex == "default" && k == 3 && comp && two == 2 {
+							// (140 million runs incl. sleep-set pruned ones each: one by-value and one
+							// by-Try completer are kept)
+							keep := false
+							for _, rl := range roles {
+								keep = keep || rl == rSuccess || rl == rCompleteF
+							}
+							if ex == "default" && k == 3 && comp && keep && two == 2 {
 								sc := r.Conc(fmt.Sprintf("k%d/%s/%s", k, strings.Join(names, ","), ex), -1, scenario(k, roles, ex))
-								sc.SplitDepth = 4
-								sc.Shard = true // all workers share each of these
+								sc.SplitDepth = 9 // depth 4 left single shards of 25+ minutes
+								sc.Shard = true   // all workers share each of these
 							}
 							continue
 						}
@@ -357,7 +363,7 @@ func main() {
 						continue
 					}
 					sc := r.Conc(fmt.Sprintf("t4/k%d/%s/default", k, strings.Join(names, ",")), -1, scenario(k, roles, "default"))
-					sc.SplitDepth = 4
+					sc.SplitDepth = 9
 					sc.Shard = true
 				}
 			}
